@@ -96,6 +96,50 @@ func padded(log []byte, ends []int, o, pad int) (file []byte, keep int) {
 	return file, keep
 }
 
+// loadChunk is the size of the reads of loadAOF (internal/server/aof.go: packet := make([]byte, 0xFFFF)).
+const loadChunk = 0xFFFF
+
+type bigVariant struct {
+	log    []byte
+	ends   []int
+	posts  []interface{}
+	postxs []interface{}
+	minOff int
+}
+
+// bigPrefixed puts `SET zz-fill f STRING <pad>` and `DROP zz-fill` (canonical RESP, as the server writes them) in front of a
+// log; the pad is sized so that the first read-chunk boundary of the loader falls into the middle of a randomly chosen
+// command of the log.  Tears are taken only behind the prefix, where the dataset is the model's again.
+func bigPrefixed(log []byte, ends []int, posts, postxs []interface{}, rng *rand.Rand) (bigVariant, bool) {
+	j := rng.Intn(len(ends))
+	start := 0
+	if j > 0 {
+		start = ends[j-1]
+	}
+	mid := (start + ends[j]) / 2
+	want := loadChunk - mid // length of the prefix
+	drop := t38.AppendCommand(nil, "DROP", "zz-fill")
+	n := want - len(drop) - 60
+	for iter := 0; iter < 8 && n > 0; iter++ {
+		set := t38.AppendCommand(nil, "SET", "zz-fill", "f", "STRING", strings.Repeat("x", n))
+		d := want - len(set) - len(drop)
+		if d == 0 {
+			pre := append(set, drop...)
+			v := bigVariant{log: append(append([]byte{}, pre...), log...), minOff: len(pre)}
+			v.ends = []int{len(set), len(pre)}
+			for _, e := range ends {
+				v.ends = append(v.ends, e+len(pre))
+			}
+			// complete commands -> expected state: 0 none, 1 (the filler alone: never used), 2.. the model's states
+			v.posts = append([]interface{}{posts[0], posts[0]}, posts...)
+			v.postxs = append([]interface{}{postxs[0], postxs[0]}, postxs...)
+			return v, true
+		}
+		n += d
+	}
+	return bigVariant{}, false
+}
+
 func aofTorn(args []string) int {
 	fs := flag.NewFlagSet("aof-torn", flag.ExitOnError)
 	in := fs.String("in", "", "behaviours (NDJSON)")
@@ -104,6 +148,7 @@ func aofTorn(args []string) int {
 	stride := fs.Int("stride", 5, "stride of the sample when -all is not given")
 	seed := fs.Int64("seed", 1, "seed")
 	maxm := fs.Int("max-mismatch", 20, "")
+	bigEvery := fs.Int("big-every", 4, "every n-th log is also torn behind a prefix that puts a command across the loader's 64 KiB read-chunk boundary (0: never)")
 	fs.Parse(args)
 	f, err := os.Open(*in)
 	if err != nil {
@@ -116,7 +161,7 @@ func aofTorn(args []string) int {
 	var mu sync.Mutex
 	var mism []tornMismatch
 	var firstErr error
-	offsets, recoveries, logs, cmdsTotal, bytesTotal := 0, 0, 0, 0, 0
+	offsets, recoveries, logs, cmdsTotal, bytesTotal, bigLogs := 0, 0, 0, 0, 0, 0
 	var stopWG sync.WaitGroup
 	rng := rand.New(rand.NewSource(*seed))
 	bi := -1
@@ -190,117 +235,151 @@ func aofTorn(args []string) int {
 		logs++
 		cmdsTotal += len(cmds)
 		bytesTotal += len(logBytes)
-		// 2. choose offsets
-		near := map[int]bool{}
-		for _, e := range append([]int{0}, ends...) {
-			for d := -3; d <= 3; d++ {
-				if e+d >= 0 && e+d <= len(logBytes) {
-					near[e+d] = true
-				}
+		// the log as written, and (every n-th log) the same log behind a prefix of two commands that cancel each other
+		// (SET of a large string, DROP) sized so that the loader's read-chunk boundary falls inside one of the commands
+		type variant struct {
+			log    []byte
+			ends   []int
+			posts  []interface{}
+			postxs []interface{}
+			minOff int
+			big    bool
+		}
+		variants := []variant{{logBytes, ends, posts, postxs, 0, false}}
+		if *bigEvery > 0 && bi%*bigEvery == 0 && len(ends) > 0 {
+			if v, ok := bigPrefixed(logBytes, ends, posts, postxs, rng); ok {
+				variants = append(variants, variant{v.log, v.ends, v.posts, v.postxs, v.minOff, true})
+				bigLogs++
 			}
 		}
-		var offs []int
-		phase := rng.Intn(*stride)
-		for o := 0; o <= len(logBytes); o++ {
-			if *all || near[o] || o%*stride == phase {
-				offs = append(offs, o)
-			}
-		}
-		extra := ks.Concrete(b.Extra)
-		type job struct{ o, pad int }
-		jobs := make(chan job, 256)
-		var wg sync.WaitGroup
-		for w := 0; w < *par; w++ {
-			wg.Add(1)
-			go func() {
-				defer wg.Done()
-				for j := range jobs {
-					mu.Lock()
-					stop := len(mism) >= *maxm || firstErr != nil
-					mu.Unlock()
-					if stop {
-						continue
-					}
-					file, keep := padded(logBytes, ends, j.o, j.pad)
-					whole := 0
-					for _, e := range ends {
-						if e <= j.o {
-							whole++
+		for _, v := range variants {
+			logBytes, ends, posts, postxs, minOff, big := v.log, v.ends, v.posts, v.postxs, v.minOff, v.big
+			_ = postxs
+			// 2. choose offsets
+			near := map[int]bool{}
+			if big {
+				// every offset around the read-chunk boundaries of loadAOF
+				for m := loadChunk; m < len(logBytes)+8; m += loadChunk {
+					for d := -24; d <= 24; d++ {
+						if m+d >= minOff && m+d <= len(logBytes) {
+							near[m+d] = true
 						}
 					}
-					add := func(what, detail string) {
+				}
+			}
+			for _, e := range append([]int{0}, ends...) {
+				if e < minOff {
+					continue
+				}
+				for d := -3; d <= 3; d++ {
+					if e+d >= 0 && e+d <= len(logBytes) {
+						near[e+d] = true
+					}
+				}
+			}
+			var offs []int
+			phase := rng.Intn(*stride)
+			for o := minOff; o <= len(logBytes); o++ {
+				if (*all && !big) || near[o] || (!big && o%*stride == phase) {
+					offs = append(offs, o)
+				}
+			}
+			extra := ks.Concrete(b.Extra)
+			type job struct{ o, pad int }
+			jobs := make(chan job, 256)
+			var wg sync.WaitGroup
+			for w := 0; w < *par; w++ {
+				wg.Add(1)
+				go func() {
+					defer wg.Done()
+					for j := range jobs {
 						mu.Lock()
-						mism = append(mism, tornMismatch{bi, j.o, j.pad, what, detail})
+						stop := len(mism) >= *maxm || firstErr != nil
 						mu.Unlock()
-					}
-					dir, _ := os.MkdirTemp("", "t38v-torn-")
-					path := filepath.Join(dir, "appendonly.aof")
-					os.WriteFile(path, file, 0600)
-					s1, err := t38.Start(t38.Options{Dir: dir})
-					if err != nil {
-						add("start", "server does not start on the torn log: "+err.Error())
-						os.RemoveAll(dir)
-						continue
-					}
-					mu.Lock()
-					recoveries++
-					mu.Unlock()
-					if d := ks.MatchState(posts[whole], s1.S.VerifDump(true)); len(d) > 0 {
-						add("recovered", fmt.Sprintf("%d complete commands before the tear: %s", whole, strings.Join(d, "; ")))
-					} else if fi, err := os.Stat(path); err != nil || int(fi.Size()) != keep {
-						add("size", fmt.Sprintf("file is %d bytes after recovery, the last complete command (with its padding) ends at %d", fi.Size(), keep))
-					} else {
-						// keeps appending: one more acknowledged write must survive a further restart
-						c, err := s1.Dial()
-						if err != nil {
-							mu.Lock()
-							firstErr = fmt.Errorf("cannot connect to the recovered server: %v", err)
-							mu.Unlock()
-							s1.StopAndRemove()
+						if stop {
 							continue
 						}
-						r, err := c.Do(extra...)
-						c.Close()
-						if err != nil || r.Kind != '+' {
-							add("second", fmt.Sprintf("write after recovery not acknowledged: %v %v", r, err))
-						} else {
-							dir2, _ := os.MkdirTemp("", "t38v-torn2-")
-							if err := copyFile(path, filepath.Join(dir2, "appendonly.aof")); err != nil {
-								mu.Lock()
-								firstErr = err
-								mu.Unlock()
-							}
-							s2, err := t38.Start(t38.Options{Dir: dir2})
-							if err != nil {
-								add("second", "server does not start after recovery + one write: "+err.Error())
-								os.RemoveAll(dir2)
-							} else {
-								mu.Lock()
-								recoveries++
-								mu.Unlock()
-								if d := ks.MatchState(postxs[whole], s2.S.VerifDump(true)); len(d) > 0 {
-									add("second", fmt.Sprintf("after recovery, one acknowledged write and a kill: %s", strings.Join(d, "; ")))
-								}
-								stopWG.Add(1)
-								go func() { defer stopWG.Done(); s2.StopAndRemove() }()
+						file, keep := padded(logBytes, ends, j.o, j.pad)
+						whole := 0
+						for _, e := range ends {
+							if e <= j.o {
+								whole++
 							}
 						}
+						add := func(what, detail string) {
+							mu.Lock()
+							mism = append(mism, tornMismatch{bi, j.o, j.pad, what, detail})
+							mu.Unlock()
+						}
+						dir, _ := os.MkdirTemp("", "t38v-torn-")
+						path := filepath.Join(dir, "appendonly.aof")
+						os.WriteFile(path, file, 0600)
+						s1, err := t38.Start(t38.Options{Dir: dir})
+						if err != nil {
+							add("start", "server does not start on the torn log: "+err.Error())
+							os.RemoveAll(dir)
+							continue
+						}
+						mu.Lock()
+						recoveries++
+						mu.Unlock()
+						if d := ks.MatchState(posts[whole], s1.S.VerifDump(true)); len(d) > 0 {
+							add("recovered", fmt.Sprintf("%d complete commands before the tear: %s", whole, strings.Join(d, "; ")))
+						} else if fi, err := os.Stat(path); err != nil || int(fi.Size()) != keep {
+							add("size", fmt.Sprintf("file is %d bytes after recovery, the last complete command (with its padding) ends at %d", fi.Size(), keep))
+						} else {
+							// keeps appending: one more acknowledged write must survive a further restart
+							c, err := s1.Dial()
+							if err != nil {
+								mu.Lock()
+								firstErr = fmt.Errorf("cannot connect to the recovered server: %v", err)
+								mu.Unlock()
+								s1.StopAndRemove()
+								continue
+							}
+							r, err := c.Do(extra...)
+							c.Close()
+							if err != nil || r.Kind != '+' {
+								add("second", fmt.Sprintf("write after recovery not acknowledged: %v %v", r, err))
+							} else {
+								dir2, _ := os.MkdirTemp("", "t38v-torn2-")
+								if err := copyFile(path, filepath.Join(dir2, "appendonly.aof")); err != nil {
+									mu.Lock()
+									firstErr = err
+									mu.Unlock()
+								}
+								s2, err := t38.Start(t38.Options{Dir: dir2})
+								if err != nil {
+									add("second", "server does not start after recovery + one write: "+err.Error())
+									os.RemoveAll(dir2)
+								} else {
+									mu.Lock()
+									recoveries++
+									mu.Unlock()
+									if d := ks.MatchState(postxs[whole], s2.S.VerifDump(true)); len(d) > 0 {
+										add("second", fmt.Sprintf("after recovery, one acknowledged write and a kill: %s", strings.Join(d, "; ")))
+									}
+									stopWG.Add(1)
+									go func() { defer stopWG.Done(); s2.StopAndRemove() }()
+								}
+							}
+						}
+						stopWG.Add(1)
+						go func() { defer stopWG.Done(); s1.StopAndRemove() }()
 					}
-					stopWG.Add(1)
-					go func() { defer stopWG.Done(); s1.StopAndRemove() }()
-				}
-			}()
-		}
-		for _, o := range offs {
-			offsets++
-			jobs <- job{o, 0}
-			if near[o] && o%2 == 0 {
-				offsets++
-				jobs <- job{o, 1 + rng.Intn(3)}
+				}()
 			}
+			for _, o := range offs {
+				offsets++
+				jobs <- job{o, 0}
+				if near[o] && o%2 == 0 {
+					offsets++
+					jobs <- job{o, 1 + rng.Intn(3)}
+				}
+			}
+			close(jobs)
+			wg.Wait()
 		}
-		close(jobs)
-		wg.Wait()
 		if len(mism) >= *maxm {
 			break
 		}
@@ -310,7 +389,7 @@ func aofTorn(args []string) int {
 		fmt.Fprintln(os.Stderr, "harness error:", firstErr)
 		return 2
 	}
-	emit(map[string]interface{}{"logs": logs, "commands": cmdsTotal, "bytes": bytesTotal, "offsets": offsets,
+	emit(map[string]interface{}{"logs": logs, "commands": cmdsTotal, "bytes": bytesTotal, "offsets": offsets, "logs_across_chunk_boundary": bigLogs,
 		"recoveries": recoveries, "mismatches": mism})
 	if len(mism) > 0 {
 		return 1
